@@ -157,6 +157,61 @@ def run(ctx: Ctx) -> None:
         ok = ("line.startswith('#line')", "T") in deps and not any("keep" in c for c, _ in deps)
     ctx.ob("R19.3", "preprocessor:_pcpp_filter|every marker's file is recorded as a dependency (kept or not)", ok, msg="dependencies are recorded only for some markers", node=pf, mod=pp)
 
+    # ---------------------------------------------------------------- R19.6
+    # "the main file's declarations only": which file is the main one is what the caller said (its spelling adapted by
+    # path rules that depend on the configuration), never something read out of the preprocessed text -- the text names
+    # whatever file the preprocessor happened to be in.  Backward slice over reaching definitions of the filter's first
+    # argument: it must not reach a name the filter's text argument is made of.
+    ctx.rule("R19.6", "the main-file name handed to a filter is computed from the caller's file name, never from the preprocessor's output", minimum=2)
+    from ..cfg import reaching_defs as _rdefs
+    # (the MSVC filter takes no name: cl.exe's output opens with the marker of the main file, which is what it anchors on)
+    for factory, filt in (("make_gcc_preprocessor", "_gcc_filter"), ("make_pcpp_preprocessor", "_pcpp_filter")):
+        inner = pp.func(f"{factory}._preprocess_file")
+        cfg = CFG(inner)
+        rd = _rdefs(cfg)
+        for n in cfg.nodes:
+            for c in n.calls():
+                if not (isinstance(c.func, ast.Name) and c.func.id == filt and len(c.args) >= 2):
+                    continue
+                out_roots = {x.id for x in ast.walk(c.args[1]) if isinstance(x, ast.Name)}
+                # names whose value is (part of) the output: the roots and everything defined from them
+                tainted = set(out_roots)
+                changed = True
+                while changed:
+                    changed = False
+                    for m in cfg.nodes:
+                        if m.kind == "stmt" and isinstance(m.stmt, (ast.Assign, ast.AnnAssign, ast.AugAssign)) and getattr(m.stmt, "value", None) is not None:
+                            if any(isinstance(x, ast.Name) and x.id in tainted for x in ast.walk(m.stmt.value)):
+                                for t in (m.stmt.targets if isinstance(m.stmt, ast.Assign) else [m.stmt.target]):
+                                    for x in ast.walk(t):
+                                        if isinstance(x, ast.Name) and x.id not in tainted and x.id not in out_roots:
+                                            tainted.add(x.id)
+                                            changed = True
+                # backward slice of the first argument
+                seen_defs = set()
+                work = [(n.id, x.id) for x in ast.walk(c.args[0]) if isinstance(x, ast.Name)]
+                via = None
+                while work and via is None:
+                    nid, name = work.pop()
+                    for d in rd.get(nid, {}).get(name, ()):
+                        if (d, name) in seen_defs:
+                            continue
+                        seen_defs.add((d, name))
+                        dn = cfg.nodes[d]
+                        val = getattr(dn.stmt, "value", None) if dn.kind == "stmt" else None
+                        if val is None:
+                            continue
+                        for x in ast.walk(val):
+                            if isinstance(x, ast.Name):
+                                if x.id in out_roots:
+                                    via = dn
+                                    break
+                                work.append((d, x.id))
+                        if via is not None:
+                            break
+                ctx.ob("R19.6", f"preprocessor:{factory}|main-file name given to {filt}", via is None,
+                       msg=f"the name the filter compares line markers with is derived from the preprocessor's output (`{short(via.stmt, 70) if via is not None else ''}`): a header whose output ends in another file's marker is filtered as if that file were the main one", node=c, mod=pp)
+
     # ---------------------------------------------------------------- R19.4
     # "reported line numbers still refer to the main file": the filters keep the line
     # markers (R19.2) and the lexer re-bases on them; the re-basing arithmetic is C10's
